@@ -16,6 +16,8 @@ import (
 	"math"
 	"os"
 	"strconv"
+	"sync"
+	"sync/atomic"
 
 	sentinel "github.com/alibaba/sentinel-golang/api"
 	"github.com/alibaba/sentinel-golang/core/base"
@@ -459,12 +461,18 @@ func genEnum(idx int) caseT {
 
 // ---- running a case on the implementation ----
 
+// resName: the resources of a case are entered with BOTH traffic types (and several resource types):
+// "gates inbound traffic only" is a statement about the call, not about the resource name.
 func resName(id int, inbound bool, res int) string {
-	d := "o"
-	if inbound {
-		d = "i"
+	return "c07-" + strconv.Itoa(id) + "-r" + strconv.Itoa(res)
+}
+
+// resTypeOf: the resource type of the i-th operation's call (no random draw: the cases stay what they were)
+func resTypeOf(i, res int) base.ResourceType {
+	if i%3 != 0 {
+		return base.ResTypeCommon
 	}
-	return "c07-" + strconv.Itoa(id) + "-" + d + strconv.Itoa(res)
+	return base.ResourceType((i/3 + res) % 7)
 }
 
 func goRules(l []ruleT) []*system.Rule {
@@ -493,7 +501,7 @@ func runCase(c caseT, clk *vclock.Clock) []obsT {
 	var entries []*base.SentinelEntry
 	var obs []obsT
 	t := c.T0
-	for _, o := range c.Ops {
+	for opi, o := range c.Ops {
 		t += o.Dt
 		clk.SetMs(t)
 		switch o.Kind {
@@ -520,7 +528,7 @@ func runCase(c caseT, clk *vclock.Clock) []obsT {
 			if o.Inbound {
 				tt = base.Inbound
 			}
-			e, b := sentinel.Entry(resName(c.ID, o.Inbound, o.Res), sentinel.WithTrafficType(tt), sentinel.WithBatchCount(o.Batch))
+			e, b := sentinel.Entry(resName(c.ID, o.Inbound, o.Res), sentinel.WithTrafficType(tt), sentinel.WithBatchCount(o.Batch), sentinel.WithResourceType(resTypeOf(opi, o.Res)))
 			if b != nil {
 				entries = append(entries, nil)
 				ob := obsT{Kind: "block", BType: int(b.BlockType()), Tag: -1, Snap: F(math.NaN()), T: t}
@@ -801,6 +809,98 @@ func monitor(c caseT, obs []obsT, rep *emit.Report) (nontrivial bool) {
 	return sawPass && sawBlock
 }
 
+// ---- real-thread search leg ----
+//
+// Many goroutines enter and exit (inbound and outbound, shared resource names) at a frozen virtual clock
+// with no rule loaded; after they have all finished the following hold under EVERY schedule, so the leg
+// can only fail on a defect: the inbound in-flight gauge is 0, the inbound pass / complete readings are
+// exactly the admitted inbound calls, and with a Concurrency rule of trigger 1 loaded now the next inbound
+// request is admitted (0 in flight) while a second one, with the first still open, is rejected.
+const stressBase = 300000
+
+func stressRound(round int, clk *vclock.Clock, rep *emit.Report) bool {
+	const G, N = 16, 400
+	id := stressBase + round
+	input := map[string]interface{}{"id": id, "family": "real-thread search", "goroutines": G, "entry_exit_pairs_per_goroutine": N,
+		"traffic": "3 of 4 calls inbound, 3 shared resource names, frozen clock, no rules; then LoadRules([concurrency trigger 1]) and two inbound requests"}
+	fail := func(clause, sig, detail string) { rep.Fail(id, clause, sig, detail, input) }
+	setGeo(geos[0])
+	clk.SetMs(1700000000000 + uint64(round)*100000 + 137)
+	stat.ResetResourceNodeMap()
+	stat.VerifResetInboundNode()
+	system.LoadRules([]*system.Rule{})
+	system_metric.SetSystemLoad(-1)
+	system_metric.SetSystemCpuUsage(-1)
+	var admitted, blocked int64
+	var panicked atomic.Value
+	var wg sync.WaitGroup
+	for g := 0; g < G; g++ {
+		wg.Add(1)
+		go func(g int) {
+			defer wg.Done()
+			defer func() {
+				if x := recover(); x != nil {
+					panicked.Store(fmt.Sprint(x))
+				}
+			}()
+			for i := 0; i < N; i++ {
+				tt := base.Inbound
+				if (g+i)%4 == 0 {
+					tt = base.Outbound
+				}
+				e, b := sentinel.Entry("c07-"+strconv.Itoa(id)+"-r"+strconv.Itoa(i%3), sentinel.WithTrafficType(tt))
+				if b != nil {
+					atomic.AddInt64(&blocked, 1)
+					continue
+				}
+				if tt == base.Inbound {
+					atomic.AddInt64(&admitted, 1)
+				}
+				e.Exit()
+			}
+		}(g)
+	}
+	wg.Wait()
+	rep.Evaluations++
+	rep.Count("real_thread_rounds", 1)
+	rep.Count("real_thread_entry_exit_pairs", G*N)
+	if x := panicked.Load(); x != nil {
+		fail("C07_no_panic", "load-or-request-panicked", fmt.Sprint("a request panicked: ", x))
+		return false
+	}
+	if blocked != 0 {
+		fail("C07_no_rule_pass", "blocked-without-violated-rule", fmt.Sprintf("%d requests were rejected although no rule is loaded", blocked))
+		return false
+	}
+	n := stat.InboundNode()
+	if c := n.CurrentConcurrency(); c != 0 {
+		fail("C07_inflight_is_live", "inflight-gauge-nonzero-at-quiescence", fmt.Sprintf("all %d entries have exited, the inbound in-flight gauge reads %d", G*N, c))
+		return false
+	}
+	want := float64(admitted) / (float64(geos[0][3]) / 1000)
+	if p, cm := n.GetQPS(base.MetricEventPass), n.GetQPS(base.MetricEventComplete); p != want || cm != want {
+		fail("C07_inbound_statistics", "inbound-node-differs-from-ledger", fmt.Sprintf("%d inbound calls admitted and completed at one instant: pass QPS %v, complete QPS %v, expected %v", admitted, p, cm, want))
+		return false
+	}
+	system.LoadRules([]*system.Rule{{ID: "1", MetricType: system.Concurrency, TriggerCount: 1, Strategy: system.NoAdaptive}})
+	ok := true
+	e1, b1 := sentinel.Entry("c07-"+strconv.Itoa(id)+"-r0", sentinel.WithTrafficType(base.Inbound))
+	if b1 != nil {
+		fail("C07_inbound_iff", "blocked-without-violated-rule", "nothing is in flight, yet an inbound request is rejected by the rule {concurrency, trigger 1}")
+		ok = false
+	} else {
+		e2, b2 := sentinel.Entry("c07-"+strconv.Itoa(id)+"-r1", sentinel.WithTrafficType(base.Inbound))
+		if b2 == nil {
+			fail("C07_inbound_iff", "admitted-with-violated-rule", "one inbound request is in flight, a second one is admitted by the rule {concurrency, trigger 1}")
+			ok = false
+			e2.Exit()
+		}
+		e1.Exit()
+	}
+	system.LoadRules([]*system.Rule{})
+	return ok
+}
+
 // ---- Coq case printer ----
 
 func coqRules(o opT) string {
@@ -974,6 +1074,17 @@ func main() {
 	if a.Search {
 		nVary *= 5
 	}
+	nStress := a.Pick(0, 6, 40)
+	if a.Search {
+		nStress *= 3
+	}
+	if a.Only >= stressBase && a.Only < constsID {
+		stressRound(a.Only-stressBase, clk, rep)
+		for _, f := range rep.MonitorFailures {
+			fmt.Printf("MONITOR-FAIL clause=%s signature=%s %s\n", f.Clause, f.Signature, f.Detail)
+		}
+		return
+	}
 	if a.Only >= varyBase && a.Only < constsID {
 		runOne(genVary(root.Fork(uint64(a.Only)), a.Only), false)
 		for _, f := range rep.MonitorFailures {
@@ -1000,6 +1111,11 @@ func main() {
 	}
 	for id := 0; id < nMon; id++ {
 		runOne(genCase(root.Fork(uint64(id)), id), id < nCorr)
+	}
+	for k := 0; k < nStress; k++ {
+		if !stressRound(k, clk, rep) {
+			break
+		}
 	}
 	if sh != nil {
 		sh.Add(constsID, coqConsts())
